@@ -327,40 +327,51 @@ func (e *Engine) registerFmtIntrinsics() {
 		return BoolV{C: false}
 	}
 	in["fmt.Sprintf"] = func(r *Run, fr *frame, a []Value) Value {
-		f := a[0].(StrV).concrete()
-		args := a[1].(SliceV).Data
-		out := StrV{}
-		ai := 0
-		for i := 0; i < len(f); i++ {
-			if f[i] != '%' {
-				out = concatStr(out, strLit(string(f[i])))
-				continue
-			}
-			i++
-			switch f[i] {
-			case 's':
-				v := args[ai].(Iface).V
-				ai++
-				sv, ok := v.(StrV)
-				if !ok {
-					panic(unsupported("Sprintf %%s of %T", v))
-				}
-				out = concatStr(out, sv)
-			case 'd':
-				v := args[ai].(Iface).V.(IntV)
-				ai++
-				if v.S != nil {
-					panic(unsupported("Sprintf %%d of symbolic int"))
-				}
-				out = concatStr(out, strLit(fmtInt(int64(v.C))))
-			case '%':
-				out = concatStr(out, strLit("%"))
-			default:
-				panic(unsupported("Sprintf verb %%%c", f[i]))
-			}
-		}
-		return out
+		return r.sprintf(a[0].(StrV).concrete(), a[1].(SliceV).Data)
 	}
+	// fmt.Errorf without %w is errors.New(Sprintf(...)) (fmt/errors.go); the real errors.New is executed
+	in["fmt.Errorf"] = func(r *Run, fr *frame, a []Value) Value {
+		f := a[0].(StrV).concrete()
+		if strings.Contains(f, "%w") {
+			panic(unsupported("fmt.Errorf with %%w"))
+		}
+		msg := r.sprintf(f, a[1].(SliceV).Data)
+		return r.callFunc(fr, r.eng.prog.ImportedPackage("errors").Func("New"), []Value{msg}, nil)
+	}
+}
+
+func (r *Run) sprintf(f string, args []Value) StrV {
+	out := StrV{}
+	ai := 0
+	for i := 0; i < len(f); i++ {
+		if f[i] != '%' {
+			out = concatStr(out, strLit(string(f[i])))
+			continue
+		}
+		i++
+		switch f[i] {
+		case 's', 'v':
+			v := args[ai].(Iface).V
+			ai++
+			sv, ok := v.(StrV)
+			if !ok {
+				panic(unsupported("Sprintf %%%c of %T", f[i], v))
+			}
+			out = concatStr(out, sv)
+		case 'd':
+			v := args[ai].(Iface).V.(IntV)
+			ai++
+			if v.S != nil {
+				panic(unsupported("Sprintf %%d of symbolic int"))
+			}
+			out = concatStr(out, strLit(fmtInt(int64(v.C))))
+		case '%':
+			out = concatStr(out, strLit("%"))
+		default:
+			panic(unsupported("Sprintf verb %%%c", f[i]))
+		}
+	}
+	return out
 }
 
 func fmtInt(v int64) string {
